@@ -96,6 +96,17 @@ def run(report: Report, tier, seed):
     if rbad:
         b = rbad[0]
         fails = [{"input": {"recursion": b["job"]}, "mismatches": [{"what": f"recursion scenario {b['job']} v{b['problems'][0].get('version')} {b['problems'][0].get('setting')}: {b['problems'][0]['what']}"}]}] + fails
+    from . import recspill
+    sp = pool_map(recspill.case, recspill.jobs(tier))
+    spbad = [r for r in sp if r["problems"] or r["crash"]]
+    report.bounded.append(Bounded(function="recursive routines of arity 0..3 at every version with subroutines (v4 restores spilled slots with dig, later versions with uncover)",
+                                  contract="the call returns the value of the Python recurrence; locals written before the re-entrant call are intact after it",
+                                  bound=f"arity {recspill.ARITIES} x result uint64/none x 0..2 live locals x self/mutual x versions 4..10 x 2-3 option settings x depths {recspill.DEPTHS}",
+                                  cases=sum(r["ran"] for r in sp), distinct_nontrivial=len(sp), failures=len(spbad)))
+    if spbad:
+        b = spbad[0]
+        w = b["problems"][0] if b["problems"] else {"version": b["crash"]["version"], "setting": b["crash"]["setting"], "what": f"{b['crash']['type']}: {b['crash']['message']}"}
+        fails = [{"input": {"recspill": b["job"]}, "mismatches": [{"what": f"recursive routine {b['job']} (arity, result, locals, mutual) v{w['version']} {w['setting']}: {w['what']}"}]}] + fails
     # the recorded optimiser finding O3.4, shown on a fixed program and attributed exactly (disappears when the multiply-stored slot is withheld)
     from . import opt_native
     w34 = opt_native.o34_witness("result")
@@ -148,6 +159,11 @@ def replay(data):
         out = recur_scenarios.byref_case(j) if len(j) == 2 else recur_scenarios.case(j)
         print([{k: v for k, v in p.items() if k != "teal"} for p in out["problems"][:2]])
         return 1 if out["problems"] else 0
+    if (nat.get("input") or {}).get("recspill"):
+        from . import recspill
+        out = recspill.case(tuple(nat["input"]["recspill"]))
+        print(out["crash"], [p["what"] for p in out["problems"][:2]])
+        return 1 if (out["problems"] or out["crash"]) else 0
     spec = (nat.get("input") or {}).get("spec")
     if not spec:
         print("no concrete input in replay file; refuted obligations:", [x["id"] for x in r.get("refuted", [])])
